@@ -5,7 +5,12 @@ MANIFEST = {
                  'theorems for the order-insensitivity of the three set-reading decision points',
     'text': 'Theorems: join_verdict_order_independent (the join verdict depends on the listed rows only through the '
             'latest row of each task), verdict_order_independent (the completion verdict is invariant under permutation '
-            'of the task rows), merge_order_independent (version merge at a join, flat consistent contexts; C05). The '
+            'of the task rows), merge_order_independent (version merge at a join, ARBITRARILY NESTED values, at every leaf path both contexts hold: '
+            'both merge orders give the same leaf and version unless two concurrent branches published the path), '
+            'merge_grouping_independent (associativity: how a join groups >=3 inbound contexts is irrelevant, no tie '
+            'hypothesis), published_data_order_independent (WHOLE fork/join publish histories: listing the rows of every '
+            'join in another order shows every task the same leaf whenever its publishers have a causally latest one; '
+            'C05Causal, hypothesis shape-stable republication). The '
             'whole-run statement is decided on the real engine: every generated program of the deterministic class '
             '(single activation, no partial join, no engine command racing branches) is run under two different '
             'schedules, with and without spec-cache eviction before every event and with an engine restart, and the '
@@ -15,7 +20,7 @@ MANIFEST = {
             'it is sampled. cachetools LRU is not modelled (eviction is exercised, not proved).',
 }
 RULE = ('stream engine (mode paired): program x oracle x two schedules (+evict, +restart); non-trivial = all paired '
-        'cases; distinct = distinct (definition, oracle, both schedule seeds); stream core as in C01; stream ctx as in C05 (the real data-flow functions on generated publish histories, every inbound context in all row orders, against Mistral.Ctx + order-independence monitor)')
+        'cases; distinct = distinct (definition, oracle, both schedule seeds); stream core as in C01; stream ctx as in C05 (the real data-flow functions on generated publish histories, every inbound context in all row orders, against Mistral.Ctx + order-independence monitor + the leaf-granular causal monitor on every row order; stream hist: whole histories against Mistral.Hist)')
 TRUSTED = ['harness seams replaced by recorders']
 LEAN_MODULES = ['Mistral.Props.C02']
 
@@ -42,7 +47,7 @@ def search(ctx):
 
 def replay(ctx, rep):
     r = rep.get('replay', rep)
-    if isinstance(r, dict) and 'history' in r:
+    if isinstance(r, dict) and ('history' in r or r.get('lookup')):
         from harness import ctx_stream
         ctx_stream.replay(ctx, r)
         return
